@@ -218,3 +218,43 @@ try:
     _lib.CLASS_MODELS[_CloseReason] = enum_ctor_model(_CloseReason)
 except ImportError:  # pragma: no cover
     pass
+
+
+# ---------------------------------------------------------------------------------------------------------------------
+# shlex.quote: trusted, uninterpreted.  Contract used by C48 (stated there): sh_split(sh_quote(s)) == [s] — a quoted word is
+# read back by a POSIX shell as exactly one word with value s and nothing in it is executed.  The model always returns the
+# application sh_quote(s) (also for concrete s) so that contracts can inspect which fragments of a command are quoted.
+
+import shlex as _shlex
+
+
+@function(_shlex.quote)
+def f_shlex_quote(it, s):
+    s = it.resolve(s)
+    if not isinstance(s, SStr):
+        it.raise_(TypeError, "expected string or bytes-like object")
+    it.ex.note("assumed", "shlex.quote(s): uninterpreted; trusted contract sh_split(quote(s)) == [s]")
+    return SStr(uf("sh_quote", _S, _S)(s.t))
+
+
+_lib.UF_ORACLES["sh_quote"] = _shlex.quote
+
+
+# ---------------------------------------------------------------------------------------------------------------------
+# hmac.compare_digest(a, b): equality (the constant-time aspect is not modelled); two str arguments must be ASCII-only,
+# otherwise CPython raises TypeError ("comparing strings with non-ASCII characters is not supported") — exact.
+
+import hmac as _hmac
+
+
+@function(_hmac.compare_digest)
+def f_compare_digest(it, a, b):
+    a, b = it.resolve(a), it.resolve(b)
+    if isinstance(a, SStr) and isinstance(b, SStr):
+        ascii_ = z3.And(all_in(a.t, [(0, 0x7F)]), all_in(b.t, [(0, 0x7F)]))
+        if not it.branch(SBool(ascii_)):
+            it.raise_(TypeError, "comparing strings with non-ASCII characters is not supported")
+        return SBool(a.t == b.t)
+    if isinstance(a, SBytes) and isinstance(b, SBytes):
+        return SBool(a.t == b.t)
+    it.raise_(TypeError, "unsupported operand types(s) or combination of types")
